@@ -1,6 +1,6 @@
 """Replay a recorded violation natively: python3-vt replay.py <replay.json>"""
-import sys, json
-sys.path.insert(0, '/verif')
+import os, sys, json
+sys.path.insert(0, os.path.dirname(os.path.abspath(__file__)))
 from mirsym import check
 v = json.load(open(sys.argv[1]))
 b = check.build_native("release")
